@@ -177,6 +177,55 @@ func bigFileCase() string {
 	return ""
 }
 
+// reverifyCase: Verify is truthful each time it is called, also when a file's bytes change between two calls in one process
+// while its size, modification time and inode stay the same (bit rot; tools that restore time stamps).
+func reverifyCase(k int) string {
+	root := run.Scratch("c03rv")
+	defer os.RemoveAll(root)
+	a := (scen.FileSpec{Name: "a", Size: 300 + 20000*(k%2), Kind: "random", Seed: uint64(40 + k)}).Content(64)
+	b := (scen.FileSpec{Name: "b", Size: 77, Kind: "random", Seed: uint64(50 + k)}).Content(64)
+	pa, pb := filepath.Join(root, "a.dat"), filepath.Join(root, "sub", "b.bin")
+	os.MkdirAll(filepath.Join(root, "sub"), 0o755)
+	os.WriteFile(pa, a, 0o644)
+	os.WriteFile(pb, b, 0o644)
+	idx := filepath.Join(root, "set.par2")
+	if err := par2.Create(idx, []string{pa, pb}, par2.CreateOptions{SliceByteCount: 64, NumParityShards: 3, NumGoroutines: 1}); err != nil {
+		return "Create failed: " + err.Error()
+	}
+	verify := func() (bool, string) {
+		r, err := par2.Verify(idx, par2.VerifyOptions{NumGoroutines: 1 + k%3})
+		if err != nil {
+			return false, "Verify failed: " + err.Error()
+		}
+		return r.ShardCounts.RepairNeeded(), ""
+	}
+	if need, msg := verify(); msg != "" || need {
+		return "untouched set: " + msg + " (repair needed reported)"
+	}
+	for round, off := range []int{len(a) - 5, 3, len(a) / 2} {
+		st, _ := os.Stat(pa)
+		f, _ := os.OpenFile(pa, os.O_WRONLY, 0)
+		f.WriteAt([]byte{a[off] ^ 0x10}, int64(off))
+		f.Close()
+		os.Chtimes(pa, st.ModTime(), st.ModTime())
+		need, msg := verify()
+		if msg != "" {
+			return msg
+		}
+		if !need {
+			return fmt.Sprintf("round %d: byte %d of a.dat was changed in place (same size, modification time and inode) after an earlier Verify in this process, and Verify reports that no repair is needed", round, off)
+		}
+		f, _ = os.OpenFile(pa, os.O_WRONLY, 0)
+		f.WriteAt([]byte{a[off]}, int64(off))
+		f.Close()
+		os.Chtimes(pa, st.ModTime(), st.ModTime())
+		if need, msg := verify(); msg != "" || need {
+			return fmt.Sprintf("round %d: the byte was restored in place and Verify still reports damage (%s)", round, msg)
+		}
+	}
+	return ""
+}
+
 func TestCheck(t *testing.T) {
 	cfg := run.Load("C03")
 	rec := run.NewRec(cfg)
@@ -229,6 +278,15 @@ func TestCheck(t *testing.T) {
 		var c scen.Case
 		if _, err := run.LoadReplay(f, &c); err == nil && cfg.Shard == 0 {
 			do(c)
+		}
+	}
+	for k := 0; k < 4; k++ {
+		if cfg.Mine(40 + k) {
+			rec.Eval()
+			rec.Class("reverify-after-in-place-change")
+			if msg := reverifyCase(k); msg != "" {
+				rec.Fail("reverify", scen.Case{Index: fmt.Sprintf("reverify scenario %d (fixed case)", k)}, "", msg)
+			}
 		}
 	}
 	if cfg.Thorough() && cfg.Shard == 3%cfg.NShards {
